@@ -104,7 +104,28 @@ func errValueOf(c ssa.CallInstruction, idx int) ssa.Value {
 // "propagated" (tested and the failure edge cannot reach a success return, or returned directly),
 // "swallowed" (tested, but a nil-error return is reachable from the failure edge),
 // "ignored" (never tested nor returned).
+// errorDiscipline judges call c inside fn. The judgement itself is intra-procedural (helper calls are opaque); when c
+// sits in a helper that is virtually inlined into fn and the helper hands the error on to its caller, the helper's
+// call sites inside fn are judged in turn.
 func errorDiscipline(w *core.World, fn *ssa.Function, c ssa.CallInstruction) (string, string) {
+	g := c.Parent()
+	var verdict, detail string
+	sites := core.InlineSites(g)
+	core.WithoutInlining(func() { verdict, detail = errorDisciplineLocal(w, g, c) })
+	if g != fn && verdict == "propagated" {
+		for _, s := range sites {
+			if !core.InBody(fn, s.Parent()) {
+				continue
+			}
+			if v2, d2 := errorDiscipline(w, fn, s); v2 != "propagated" && v2 != "n/a" {
+				return v2, "via " + core.FuncKey(g) + ": " + d2
+			}
+		}
+	}
+	return verdict, detail
+}
+
+func errorDisciplineLocal(w *core.World, fn *ssa.Function, c ssa.CallInstruction) (string, string) {
 	idx, ok := callReturnsError(c)
 	if !ok {
 		return "n/a", ""
@@ -306,7 +327,7 @@ func c07(w *core.World, r *core.Report) {
 			if strings.Contains(core.FuncKey(f), "mocks/") {
 				continue
 			}
-			for _, c := range core.CallsTo(f, "sync.Once.Do") {
+			for _, c := range core.OwnCallsTo(f, "sync.Once.Do") {
 				n++
 				args := core.CallArgs(c)
 				bad := ""
@@ -352,7 +373,7 @@ func c07(w *core.World, r *core.Report) {
 			}
 		}
 		seenKey := map[string]int{}
-		for _, c := range core.Calls(f) {
+		for _, c := range core.OwnCalls(f) {
 			if _, isGo := c.(*ssa.Go); isGo {
 				continue
 			}
